@@ -102,6 +102,30 @@ def library():
 LIB = library()
 LIBNAMES = [n for n, _ in LIB]
 LIBMAP = dict(LIB)
+# heading levels that only the heading-sequence family uses (not multiplied into every document family)
+LIBMAP.update({"h1": lambda k: ("h", 1, [("t", k())]), "h4": lambda k: ("h", 4, [("t", k())]), "h5": lambda k: ("h", 5, [("t", k())])})
+
+
+class HeadingSpace(Space):
+    """every sequence of <= n headings over the given levels, each followed by a paragraph (levels may be skipped going down
+    and returned to in any order): cases (block names, variant)"""
+
+    def __init__(self, n, levels=(1, 2, 3, 4), variants=("plain", "tight"), name="headings"):
+        self.name = name
+        self.cases = []
+        for ln in range(1, n + 1):
+            for seq in itertools.product(levels, repeat=ln):
+                names = []
+                for lv in seq:
+                    names += ["h%d" % lv, "p"]
+                for v in variants:
+                    self.cases.append((tuple(names), v))
+
+    def __len__(self):
+        return len(self.cases)
+
+    def __getitem__(self, i):
+        return self.cases[i]
 VARIANTS = ["plain", "html", "spaced", "compact", "tight"]
 
 
